@@ -70,6 +70,10 @@ theorem lookup_reads_le_height (t : Node K V) (key : K) (h : AVL t) :
 theorem rank_lookup_reads_le (t : Node K V) (i : Nat) (h : AVL t) : t.getByIndexReads i ≤ 2 * t.height :=
   getByIndexReads_le t i (AVL.heightOK t h)
 
+/-- a proof query (membership or non-membership, neighbours included) fetches at most ten nodes per level -/
+theorem proof_reads_le (t : Node K V) (key : K) (h : AVL t) : t.proofReads key ≤ 10 * t.height :=
+  proofReads_le t key (AVL.heightOK t h)
+
 theorem size_is_count (t : Node K V) (h : SizeOK t) : t.size = t.toList.length := size_eq_length t h
 
 end Iavl.Props.C11
